@@ -24,6 +24,31 @@ def script_dedup(users, text):
     s += "".join("rmidx 0 0 @0 ;; " for _ in range(users))
     return s
 
+def sb_scripts(rnd, n, maxlen):
+    """sequences of strings through one reused StringBuilder: lengths on the builder's capacity steps (31, 63, 127, ...) and on the
+    length limit, duplicates (the scratch node is then kept for the next string), dereferences, allocator answers"""
+    hxs = lambda b: b.hex() if b else "-"
+    out = []
+    edge = [0, 1, 30, 31, 31, 32, 62, 63, 64, 126, 127, 128, 254, 255, 256, 511, 512]
+    if maxlen < 70000:
+        edge += [maxlen - 1, maxlen, maxlen + 1]
+    for _ in range(n):
+        strs, ops = [], []
+        for _ in range(rnd.randrange(2, 10)):
+            k = rnd.random()
+            if strs and k < 0.35:
+                ops.append("s" + hxs(rnd.choice(strs)))                      # a duplicate: found in the pool
+            elif strs and k < 0.5:
+                ops.append("d" + hxs(rnd.choice(strs)))                      # one user less
+            else:
+                ln = rnd.choice(edge) if rnd.random() < 0.8 else rnd.randrange(0, 300)
+                t = bytes(rnd.choice(b"abcdef\x00\xff") for _ in range(ln))
+                strs.append(t)
+                ops.append("s" + hxs(t))
+        ans = "-" if rnd.random() < 0.4 else "".join(rnd.choice("1110") for _ in range(rnd.randrange(1, 14)))
+        out.append((ans, ops))
+    return out
+
 def check(run):
     rnd = random.Random(run.seed * 295075147 + 6)
     thorough = run.tier == "thorough"
@@ -155,6 +180,33 @@ def check(run):
             oracle_fail.append((cfg, l[:300], f"bytes requested <= {MAXSTR} + {K1}*{len(t)} + {K0}", o[-200:]))
     if crash:
         run.violation("C06: library crashed on an instrumented-allocator deserialization: " + crash[:300], dict(kind="input", cfg=cfg, harness_src="doc_h", observed=crash[-2000:]))
+    # the string builder and the string pool node by node (Model/StrBuild.v): for every script the library's results (length
+    # field, reference count, bytes) and its exact sequence of allocator calls (sizes, outcome) must be the model's
+    for sdefs in ({}, {"ARDUINOJSON_STRING_LENGTH_SIZE": 1}, {"ARDUINOJSON_SLOT_ID_SIZE": 1, "ARDUINOJSON_STRING_LENGTH_SIZE": 4}):
+        pimpl = vlib.need_harness("pool_h", cfg, sdefs)
+        io, c0 = vlib.run_lines(pimpl, ["CFG " + cfg, "SBG"])
+        hdr, mx = io[1].split()
+        scripts = sb_scripts(rnd, 1500 if thorough else 250, int(mx))
+        sl = [f"SB {hdr} {mx} {ans} " + " ".join(ops) for ans, ops in scripts]
+        mo, mcrash = vlib.run_sharded(model, sl, None, 900, ["CFG " + cfg])
+        if mcrash:
+            raise vlib.Broken("model driver crashed: " + mcrash[:300])
+        so, scrash = vlib.run_sharded(pimpl, sl, None, 900, ["CFG " + cfg])
+        if scrash:
+            k = so.index("<crash>") if "<crash>" in so else 0
+            run.violation(f"C06: library crashed in the string builder ({sdefs}): {scrash[:200]}", dict(kind="input", cfg=cfg, defines=sdefs, harness_src="pool_h", lines=[sl[k][:4000]], observed=scrash[-2000:]))
+        for l, m, o in zip(sl, mo, so):
+            run.count(("sb", str(sdefs), l))
+            if o == "<crash>":
+                continue
+            body, _, tail = o.partition(" leaked=")
+            if body != m:
+                ms, os_ = m.split(" "), body.split(" ")
+                k = next((i for i, (x, y) in enumerate(zip(ms, os_)) if x != y), min(len(ms), len(os_)))
+                oracle_fail.append((cfg, l[:3000], f"string builder / pool, op {k}: result and allocator calls {ms[k][:160] if k < len(ms) else 'nothing'} [{sdefs}]", (os_[k] if k < len(os_) else "nothing")[:200]))
+            elif not tail.startswith("0") or "MISUSE" in tail or "UNTERMINATED" in o:
+                oracle_fail.append((cfg, l[:3000], f"every string node released, through this allocator, NUL-terminated [{sdefs}]", o[-120:]))
+        run.cov["disagreements_checked"] += len(sl)
     run.cov["rule"] = ("histories on 3 documents sharing one instrumented allocator (ledger of live blocks, call log), ending with move / copy-construction / swap+move, "
                        "default and two small geometries: nothing leaked after clear() or destruction, no release of a dead block, read-only calls allocator-silent; scripted "
                        "fill/remove/re-add around pool boundaries (freed slots reused, no allocator call); 3..200 users of one copied string (one node, released with its last user); "
